@@ -85,7 +85,7 @@ def main():
         def one(job):
             p, seed = job
             t0 = time.time()
-            e = dict(os.environ, VERIF_REPO=repo, VERIF_SEED=str(seed), VERIF_OUT=outdir, VERIF_BUILD_TAG="%s_%s" % (tag, p))
+            e = dict(os.environ, VERIF_REPO=repo, VERIF_SEED=str(seed), VERIF_OUT=outdir, VERIF_BUILD_TAG="%s_%s_%s" % (tag, p, seed))
             r = sh("cd %s && /venv/bin/python harness/vcheck.py %s --tier %s" % (VERIF, p, a.tier), env=e)
             lines = [l for l in r.stdout.splitlines() if l.startswith("VIOLATION")]
             msg = ""
@@ -98,7 +98,7 @@ def main():
                     pass
             if r.returncode not in (0, 1):
                 msg = "CHECK CRASHED: " + (r.stderr or r.stdout)[-300:]
-            shutil.rmtree(os.path.join(VERIF, "build", "tag_%s_%s" % (tag, p)), ignore_errors=True)
+            shutil.rmtree(os.path.join(VERIF, "build", "tag_%s_%s_%s" % (tag, p, seed)), ignore_errors=True)
             return p, seed, r.returncode, lines, msg, round(time.time() - t0, 1)
 
         jobs = [(p, s) for p in props for s in a.seeds.split(",")]
